@@ -722,6 +722,10 @@ Ltac nk :=
     | apply nokind_cons; [discriminate|]
     | apply nokind_flat_map; intro ].
 
+(* pseudo kinds and the two cycle kinds: never emitted by the per-position rules *)
+Definition special (k : rule_kind) : Prop :=
+  k = KCrash \/ k = KOutOfFuel \/ k = KNonNullCycle \/ k = KDefaultCycle.
+
 Lemma default_check_no_crash rs t d : nokind KCrash (default_check rs t d).
 Proof.
   unfold default_check. destruct d as [| |v]; nk.
@@ -735,61 +739,68 @@ Proof.
   destruct (is_input_tref rs t); [|nk]. destruct (lit_check rs v t); nk.
 Qed.
 
-Lemma validate_inval_nokind rs iv k :
-  (k = KCrash \/ k = KOutOfFuel) -> nokind k (validate_inval rs iv).
+Lemma default_check_no_cycle rs t d k :
+  k = KNonNullCycle \/ k = KDefaultCycle -> nokind k (default_check rs t d).
 Proof.
-  intros [-> | ->]; unfold validate_inval, name_ok; nk;
-    [apply default_check_no_crash | apply default_check_no_fuel].
+  intro Hk. unfold default_check. destruct d as [| |v]; try apply nokind_nil.
+  destruct (is_input_tref rs t); [destruct (lit_check rs v t)|]; destruct Hk as [-> | ->]; nk.
 Qed.
 
-Lemma validate_ifaces_nokind rs self sf si k : (k = KCrash \/ k = KOutOfFuel) ->
+Lemma validate_inval_nokind rs iv k : special k -> nokind k (validate_inval rs iv).
+Proof.
+  intros [-> | [-> | [-> | ->]]]; unfold validate_inval, name_ok; nk;
+    [apply default_check_no_crash | apply default_check_no_fuel
+     | apply default_check_no_cycle; auto | apply default_check_no_cycle; auto].
+Qed.
+
+Lemma validate_ifaces_nokind rs self sf si k : special k ->
   forall l seen, nokind k (validate_ifaces rs self sf si seen l).
 Proof.
   intros Hk l. induction l as [|i l IH]; intro seen; cbn [validate_ifaces]; [apply nokind_nil|].
   assert (Himpl : nokind k (validate_implements rs sf i)).
   { unfold validate_implements. apply nokind_flat_map. intro f. unfold implements_field.
-    destruct (find_field (f_name f) sf); destruct Hk as [-> | ->]; nk;
+    destruct (find_field (f_name f) sf); destruct Hk as [-> | [-> | [-> | ->]]]; nk;
       try (unfold implements_arg; destruct (find_inval (iv_name x) (f_args f0)); nk);
       try (unfold extra_arg; nk). }
   assert (Hanc : nokind k (validate_ancestors rs si i)).
-  { unfold validate_ancestors. destruct Hk as [-> | ->]; nk. }
+  { unfold validate_ancestors. destruct Hk as [-> | [-> | [-> | ->]]]; nk. }
   destruct (negb (is_interface rs i)).
-  - destruct Hk as [-> | ->]; (apply nokind_cons; [discriminate | apply IH]).
-  - apply nokind_app; [destruct Hk as [-> | ->]; nk|].
+  - destruct Hk as [-> | [-> | [-> | ->]]]; (apply nokind_cons; [discriminate | apply IH]).
+  - apply nokind_app; [destruct Hk as [-> | [-> | [-> | ->]]]; nk|].
     destruct (memN i seen).
-    + destruct Hk as [-> | ->]; (apply nokind_cons; [discriminate | apply IH]).
+    + destruct Hk as [-> | [-> | [-> | ->]]]; (apply nokind_cons; [discriminate | apply IH]).
     + apply nokind_app; [exact Hanc|]. apply nokind_app; [exact Himpl | apply IH].
 Qed.
 
-Lemma validate_members_nokind rs k : (k = KCrash \/ k = KOutOfFuel) ->
+Lemma validate_members_nokind rs k : special k ->
   forall l seen, nokind k (validate_members rs seen l).
 Proof.
   intros Hk l. induction l as [|m l IH]; intro seen; cbn [validate_members]; [apply nokind_nil|].
   destruct (is_object rs m); [destruct (memN m seen)|];
-    try apply IH; destruct Hk as [-> | ->]; (apply nokind_cons; [discriminate | apply IH]).
+    try apply IH; destruct Hk as [-> | [-> | [-> | ->]]]; (apply nokind_cons; [discriminate | apply IH]).
 Qed.
 
-Lemma validate_type_nokind rs nd k : (k = KCrash \/ k = KOutOfFuel) -> nokind k (validate_type rs nd).
+Lemma validate_type_nokind rs nd k : special k -> nokind k (validate_type rs nd).
 Proof.
   intro Hk. destruct nd as [n d]. unfold validate_type. cbn [fst snd].
-  assert (Hn : nokind k (name_ok n)) by (unfold name_ok; destruct Hk as [-> | ->]; nk).
+  assert (Hn : nokind k (name_ok n)) by (unfold name_ok; destruct Hk as [-> | [-> | [-> | ->]]]; nk).
   assert (Hfs : forall fs, nokind k (validate_fields rs fs)).
   { intro fs. unfold validate_fields, validate_field, name_ok.
-    apply nokind_app; [destruct Hk as [-> | ->]; nk|]. apply nokind_flat_map. intro f.
-    apply nokind_app; [destruct Hk as [-> | ->]; nk|].
-    apply nokind_app; [destruct Hk as [-> | ->]; nk|]. apply nokind_flat_map. intro a.
+    apply nokind_app; [destruct Hk as [-> | [-> | [-> | ->]]]; nk|]. apply nokind_flat_map. intro f.
+    apply nokind_app; [destruct Hk as [-> | [-> | [-> | ->]]]; nk|].
+    apply nokind_app; [destruct Hk as [-> | [-> | [-> | ->]]]; nk|]. apply nokind_flat_map. intro a.
     apply validate_inval_nokind. exact Hk. }
   destruct d as [s|fs ifs|fs ifs|ms|vs|o fs|]; cbn [validate_type_body];
     try (apply nokind_app; [exact Hn|]).
   - apply nokind_nil.
   - apply nokind_app; [apply Hfs | apply validate_ifaces_nokind; exact Hk].
   - apply nokind_app; [apply Hfs | apply validate_ifaces_nokind; exact Hk].
-  - apply nokind_app; [destruct Hk as [-> | ->]; nk | apply validate_members_nokind; exact Hk].
-  - unfold name_ok. destruct Hk as [-> | ->]; nk.
-  - apply nokind_app; [destruct Hk as [-> | ->]; nk|]. apply nokind_flat_map. intro a.
+  - apply nokind_app; [destruct Hk as [-> | [-> | [-> | ->]]]; nk | apply validate_members_nokind; exact Hk].
+  - unfold name_ok. destruct Hk as [-> | [-> | [-> | ->]]]; nk.
+  - apply nokind_app; [destruct Hk as [-> | [-> | [-> | ->]]]; nk|]. apply nokind_flat_map. intro a.
     unfold validate_input_field. apply nokind_app; [apply validate_inval_nokind; exact Hk|].
-    destruct o; destruct Hk as [-> | ->]; nk.
-  - destruct Hk as [-> | ->]; nk.
+    destruct o; destruct Hk as [-> | [-> | [-> | ->]]]; nk.
+  - destruct Hk as [-> | [-> | [-> | ->]]]; nk.
 Qed.
 
 Lemma cycle_reports_nokind {B} k0 (o : option (dstate B)) k :
@@ -799,21 +810,27 @@ Proof.
   destruct H as [_ [H _]]. congruence.
 Qed.
 
+Lemma validate_parts_nokind rs k : special k ->
+  nokind k (validate_roots rs) /\ nokind k (flat_map (validate_directive rs) (s_dirs rs))
+  /\ nokind k (flat_map (validate_type rs) (s_types rs)).
+Proof.
+  intro Hk. split; [|split].
+  - unfold validate_roots, root_check.
+    destruct (s_query rs), (s_mutation rs), (s_subscription rs); destruct Hk as [-> | [-> | [-> | ->]]]; nk.
+  - apply nokind_flat_map. intro d. unfold validate_directive, name_ok.
+    destruct (d_isdir d); [|destruct Hk as [-> | [-> | [-> | ->]]]; nk].
+    apply nokind_app; [destruct Hk as [-> | [-> | [-> | ->]]]; nk|].
+    apply nokind_app; [destruct Hk as [-> | [-> | [-> | ->]]]; nk|].
+    apply nokind_flat_map. intro a. apply validate_inval_nokind. exact Hk.
+  - apply nokind_flat_map. intro nd. apply validate_type_nokind. exact Hk.
+Qed.
+
 Theorem validate_never_crashes rs : ~ In KCrash (validate rs) /\ ~ In KOutOfFuel (validate rs).
 Proof.
   assert (H : forall k, (k = KCrash \/ k = KOutOfFuel) -> nokind k (validate rs)).
-  { intros k Hk. unfold validate.
-    apply nokind_app.
-    { unfold validate_roots, root_check.
-      destruct (s_query rs), (s_mutation rs), (s_subscription rs); destruct Hk as [-> | ->]; nk. }
-    apply nokind_app.
-    { apply nokind_flat_map. intro d. unfold validate_directive, name_ok.
-      destruct (d_isdir d); [|destruct Hk as [-> | ->]; nk].
-      apply nokind_app; [destruct Hk as [-> | ->]; nk|].
-      apply nokind_app; [destruct Hk as [-> | ->]; nk|].
-      apply nokind_flat_map. intro a. apply validate_inval_nokind. exact Hk. }
-    apply nokind_app.
-    { apply nokind_flat_map. intro nd. apply validate_type_nokind. exact Hk. }
+  { intros k Hk. assert (Hs : special k) by (unfold special; tauto).
+    destruct (validate_parts_nokind rs k Hs) as [H1 [H2 H3]]. unfold validate.
+    apply nokind_app; [exact H1|]. apply nokind_app; [exact H2|]. apply nokind_app; [exact H3|].
     apply nokind_app; apply cycle_reports_nokind;
       try apply nn_detect_terminates; try apply dv_detect_terminates;
       destruct Hk as [-> | ->]; discriminate. }
@@ -1350,4 +1367,277 @@ Proof.
   rewrite (Forall_iff _ _ _ (validate_directive_nil rs)), (Forall_iff _ _ _ (validate_type_nil rs)).
   rewrite nn_reports_nil, dv_reports_nil.
   split; [intros [H1 [H2 [H3 [H4 H5]]]]; constructor; assumption | intros [H1 H2 H3 H4 H5]; auto].
+Qed.
+
+(* ================================================================== per-kind characterisations *)
+
+Lemma in_chk k b k' : In k (chk b k') <-> b = false /\ k = k'.
+Proof.
+  unfold chk. destruct b; cbn.
+  - split; [intros [] | intros [H _]; discriminate].
+  - split; [intros [H|[]]; auto | intros [_ ->]; left; reflexivity].
+Qed.
+
+(* every input value definition looked at by validate: directive arguments, field arguments,
+   input fields *)
+Definition type_invals (nd : N * tdef) : list inval :=
+  match snd nd with
+  | DObject fs _ | DInterface fs _ => flat_map f_args fs
+  | DInput _ fs => fs
+  | _ => []
+  end.
+Definition all_invals (rs : raw_schema) : list inval :=
+  flat_map (fun d => if d_isdir d then d_args d else []) (s_dirs rs)
+  ++ flat_map type_invals (s_types rs).
+
+Definition type_fields (nd : N * tdef) : list field :=
+  match snd nd with DObject fs _ | DInterface fs _ => fs | _ => [] end.
+Definition all_fields (rs : raw_schema) : list field := flat_map type_fields (s_types rs).
+
+(* kinds that only the shared input-value rule / the output-type rule emits *)
+Definition pos_kind (k : rule_kind) : Prop :=
+  k = KNotInputType \/ k = KRequiredDeprecated \/ k = KInvalidDefault \/ k = KDefaultNotValidated
+  \/ k = KNotOutputType.
+
+Ltac pk Hk := destruct Hk as [-> | [-> | [-> | [-> | ->]]]].
+
+Lemma validate_ifaces_poskind rs self sf si k : pos_kind k ->
+  forall l seen, nokind k (validate_ifaces rs self sf si seen l).
+Proof.
+  intros Hk l. induction l as [|i l IH]; intro seen; cbn [validate_ifaces]; [apply nokind_nil|].
+  assert (Himpl : nokind k (validate_implements rs sf i)).
+  { unfold validate_implements. apply nokind_flat_map. intro f. unfold implements_field.
+    destruct (find_field (f_name f) sf); pk Hk; nk;
+      try (unfold implements_arg; destruct (find_inval (iv_name x) (f_args f0)); nk);
+      try (unfold extra_arg; nk). }
+  assert (Hanc : nokind k (validate_ancestors rs si i)).
+  { unfold validate_ancestors. pk Hk; nk. }
+  destruct (negb (is_interface rs i)).
+  - pk Hk; (apply nokind_cons; [discriminate | apply IH]).
+  - apply nokind_app; [pk Hk; nk|].
+    destruct (memN i seen).
+    + pk Hk; (apply nokind_cons; [discriminate | apply IH]).
+    + apply nokind_app; [exact Hanc|]. apply nokind_app; [exact Himpl | apply IH].
+Qed.
+
+Lemma validate_members_poskind rs k : pos_kind k ->
+  forall l seen, nokind k (validate_members rs seen l).
+Proof.
+  intros Hk l. induction l as [|m l IH]; intro seen; cbn [validate_members]; [apply nokind_nil|].
+  destruct (is_object rs m); [destruct (memN m seen)|];
+    try apply IH; pk Hk; (apply nokind_cons; [discriminate | apply IH]).
+Qed.
+
+Lemma cycle_reports_in {B} k0 (o : option (dstate B)) k :
+  In k (cycle_reports k0 o) -> k = k0 \/ k = KOutOfFuel.
+Proof.
+  unfold cycle_reports. destruct o as [st|].
+  - intro H. apply in_map_iff in H. destruct H as [_ [H _]]. auto.
+  - intros [H|[]]; auto.
+Qed.
+
+Lemma default_check_no_output rs t d : nokind KNotOutputType (default_check rs t d) /\
+  nokind KNotInputType (default_check rs t d) /\ nokind KRequiredDeprecated (default_check rs t d).
+Proof.
+  unfold default_check. destruct d as [| |v].
+  - split; [|split]; nk.
+  - split; [|split]; nk.
+  - destruct (is_input_tref rs t); [destruct (lit_check rs v t)|]; (split; [|split]); nk.
+Qed.
+
+(* kind k among the errors of the input value definitions of a list *)
+Lemma in_invals rs k l :
+  In k (flat_map (validate_inval rs) l) <-> exists iv, In iv l /\ In k (validate_inval rs iv).
+Proof. apply in_flat_map. Qed.
+
+Lemma validate_field_pos rs f k : pos_kind k ->
+  (In k (validate_field rs f) <->
+   (k = KNotOutputType /\ is_output_tref rs (f_type f) = false)
+   \/ exists iv, In iv (f_args f) /\ In k (validate_inval rs iv)).
+Proof.
+  intro Hk. unfold validate_field, name_ok. rewrite !in_app_iff, !in_chk, in_invals. split.
+  - intros [[_ H]|[[H1 H2]|H]]; [pk Hk; discriminate | left; auto | right; exact H].
+  - intros [[H1 H2]|H]; [right; left; auto | right; right; exact H].
+Qed.
+
+Lemma validate_inval_no_output rs iv : ~ In KNotOutputType (validate_inval rs iv).
+Proof.
+  unfold validate_inval, name_ok. rewrite !in_app_iff, !in_chk.
+  intros [[_ H]|[[_ H]|[[_ H]|H]]]; try discriminate.
+  exact (proj1 (default_check_no_output rs _ _) H).
+Qed.
+
+Lemma validate_type_pos rs nd k : pos_kind k ->
+  (In k (validate_type rs nd) <->
+   (exists f, In f (type_fields nd) /\ k = KNotOutputType /\ is_output_tref rs (f_type f) = false)
+   \/ exists iv, In iv (type_invals nd) /\ In k (validate_inval rs iv)).
+Proof.
+  intro Hk. destruct nd as [n d]. unfold validate_type, type_fields, type_invals. cbn [fst snd].
+  assert (Hn : ~ In k (name_ok n)).
+  { unfold name_ok. rewrite in_chk. intros [_ H]. pk Hk; discriminate. }
+  assert (Hfs : forall fs ifs,
+    In k (validate_fields rs fs ++ validate_ifaces rs n fs ifs [] ifs) <->
+    (exists f, In f fs /\ k = KNotOutputType /\ is_output_tref rs (f_type f) = false)
+    \/ exists iv, In iv (flat_map f_args fs) /\ In k (validate_inval rs iv)).
+  { intros fs ifs. unfold validate_fields. rewrite !in_app_iff, in_chk, in_flat_map. split.
+    - intros [[[_ H]|[f [Hf H]]]|H].
+      + pk Hk; discriminate.
+      + apply (validate_field_pos rs f k Hk) in H. destruct H as [H|[iv [H1 H2]]].
+        * left. exists f. tauto.
+        * right. exists iv. split; [|exact H2]. apply in_flat_map. exists f. auto.
+      + exfalso. exact (validate_ifaces_poskind rs n fs ifs k Hk ifs [] H).
+    - intros [[f [Hf H]]|[iv [H1 H2]]].
+      + left. right. exists f. split; [exact Hf|]. apply (validate_field_pos rs f k Hk). left. exact H.
+      + apply in_flat_map in H1. destruct H1 as [f [Hf Ha]]. left. right. exists f. split; [exact Hf|].
+        apply (validate_field_pos rs f k Hk). right. exists iv. auto. }
+  destruct d as [s|fs ifs|fs ifs|ms|vs|o fs|]; cbn [validate_type_body]; try rewrite in_app_iff.
+  - cbn. split; [tauto | intros [[f [[] _]]|[iv [[] _]]]].
+  - rewrite Hfs. tauto.
+  - rewrite Hfs. tauto.
+  - rewrite in_app_iff, in_chk. split.
+    + intros [H|[[_ H]|H]]; [tauto | pk Hk; discriminate |].
+      exfalso. exact (validate_members_poskind rs k Hk ms [] H).
+    + intros [[f [[] _]]|[iv [[] _]]].
+  - rewrite in_app_iff, in_chk, in_flat_map. split.
+    + intros [H|[[_ H]|[v [_ H]]]]; [tauto | pk Hk; discriminate |].
+      unfold name_ok in H. apply in_chk in H. destruct H as [_ H]. pk Hk; discriminate.
+    + intros [[f [[] _]]|[iv [[] _]]].
+  - rewrite in_app_iff, in_chk, in_flat_map. split.
+    + intros [H|[[_ H]|[iv [Hiv H]]]]; [tauto | pk Hk; discriminate |].
+      unfold validate_input_field in H. apply in_app_iff in H. destruct H as [H|H].
+      * right. exists iv. auto.
+      * destruct o; [|destruct H]. apply in_app_iff in H. rewrite !in_chk in H.
+        destruct H as [[_ H]|[_ H]]; pk Hk; discriminate.
+    + intros [[f [[] _]]|[iv [Hiv H]]]. right. right. exists iv. split; [exact Hiv|].
+      unfold validate_input_field. apply in_app_iff. left. exact H.
+  - cbn. split; [intros [H|[]]; pk Hk; discriminate | intros [[f [[] _]]|[iv [[] _]]]].
+Qed.
+
+Lemma validate_pos rs k : pos_kind k ->
+  (In k (validate rs) <->
+   (exists f, In f (all_fields rs) /\ k = KNotOutputType /\ is_output_tref rs (f_type f) = false)
+   \/ exists iv, In iv (all_invals rs) /\ In k (validate_inval rs iv)).
+Proof.
+  intro Hk. unfold validate, all_fields, all_invals. rewrite !in_app_iff. split.
+  - intros [H|[H|[H|[H|H]]]].
+    + exfalso. unfold validate_roots, root_check in H.
+      destruct (s_query rs), (s_mutation rs), (s_subscription rs);
+        repeat (apply in_app_iff in H; destruct H as [H|H]); try apply in_chk in H;
+        try destruct H as [_ H]; try contradiction; pk Hk; discriminate.
+    + apply in_flat_map in H. destruct H as [d [Hd H]]. unfold validate_directive in H.
+      destruct (d_isdir d) eqn:Ed.
+      * unfold name_ok in H. rewrite !in_app_iff, !in_chk, in_invals in H.
+        destruct H as [[_ H]|[[_ H]|[iv [H1 H2]]]]; try (pk Hk; discriminate).
+        right. exists iv. split; [|exact H2]. apply in_app_iff. left. apply in_flat_map.
+        exists d. rewrite Ed. auto.
+      * destruct H as [H|[]]. pk Hk; discriminate.
+    + apply in_flat_map in H. destruct H as [nd [Hnd H]].
+      apply (validate_type_pos rs nd k Hk) in H. destruct H as [[f [H1 H2]]|[iv [H1 H2]]].
+      * left. exists f. split; [|exact H2]. apply in_flat_map. eauto.
+      * right. exists iv. split; [|exact H2]. apply in_app_iff. right. apply in_flat_map. eauto.
+    + apply cycle_reports_in in H. destruct H; pk Hk; discriminate.
+    + apply cycle_reports_in in H. destruct H; pk Hk; discriminate.
+  - intros [[f [H1 H2]]|[iv [H1 H2]]].
+    + apply in_flat_map in H1. destruct H1 as [nd [Hnd Hf]]. right. right. left.
+      apply in_flat_map. exists nd. split; [exact Hnd|]. apply (validate_type_pos rs nd k Hk).
+      left. eauto.
+    + apply in_app_iff in H1. destruct H1 as [H1|H1]; apply in_flat_map in H1.
+      * destruct H1 as [d [Hd Ha]]. right. left. apply in_flat_map. exists d. split; [exact Hd|].
+        unfold validate_directive. destruct (d_isdir d); [|destruct Ha].
+        rewrite !in_app_iff, in_invals. right. right. eauto.
+      * destruct H1 as [nd [Hnd Ha]]. right. right. left. apply in_flat_map. exists nd.
+        split; [exact Hnd|]. apply (validate_type_pos rs nd k Hk). right. eauto.
+Qed.
+
+Theorem kind_not_input_type rs :
+  In KNotInputType (validate rs) <->
+  exists iv, In iv (all_invals rs) /\ is_input_tref rs (iv_type iv) = false.
+Proof.
+  rewrite (validate_pos rs KNotInputType) by (left; reflexivity). split.
+  - intros [[f [_ [H _]]]|[iv [H1 H2]]]; [discriminate|]. exists iv. split; [exact H1|].
+    unfold validate_inval, name_ok in H2. rewrite !in_app_iff, !in_chk in H2.
+    destruct H2 as [[_ H]|[[H _]|[[_ H]|H]]]; try discriminate; [exact H|].
+    exfalso. exact (proj1 (proj2 (default_check_no_output rs _ _)) H).
+  - intros [iv [H1 H2]]. right. exists iv. split; [exact H1|].
+    unfold validate_inval. rewrite !in_app_iff, !in_chk. right. left. auto.
+Qed.
+
+Theorem kind_not_output_type rs :
+  In KNotOutputType (validate rs) <->
+  exists f, In f (all_fields rs) /\ is_output_tref rs (f_type f) = false.
+Proof.
+  rewrite (validate_pos rs KNotOutputType) by (right; right; right; right; reflexivity). split.
+  - intros [[f [H1 [_ H2]]]|[iv [_ H]]]; [eauto|]. exfalso. exact (validate_inval_no_output rs iv H).
+  - intros [f [H1 H2]]. left. eauto.
+Qed.
+
+Theorem kind_invalid_default rs :
+  In KInvalidDefault (validate rs) <->
+  exists iv v, In iv (all_invals rs) /\ iv_default iv = DLit v
+               /\ is_input_tref rs (iv_type iv) = true /\ lit_check rs v (iv_type iv) = RInvalid.
+Proof.
+  rewrite (validate_pos rs KInvalidDefault) by (right; right; left; reflexivity). split.
+  - intros [[f [_ [H _]]]|[iv [H1 H2]]]; [discriminate|].
+    unfold validate_inval, name_ok in H2. rewrite !in_app_iff, !in_chk in H2.
+    destruct H2 as [[_ H]|[[_ H]|[[_ H]|H]]]; try discriminate.
+    unfold default_check in H. destruct (iv_default iv) as [| |v] eqn:Ed; try destruct H.
+    destruct (is_input_tref rs (iv_type iv)) eqn:Ei; [|destruct H as [H|[]]; discriminate].
+    destruct (lit_check rs v (iv_type iv)) eqn:El; try destruct H as [H|[]]; try discriminate;
+      try contradiction.
+    exists iv, v. auto.
+  - intros [iv [v [H1 [H2 [H3 H4]]]]]. right. exists iv. split; [exact H1|].
+    unfold validate_inval. rewrite !in_app_iff. right. right. right.
+    unfold default_check. rewrite H2, H3, H4. left. reflexivity.
+Qed.
+
+Lemma validate_cycle_kind rs k : k = KNonNullCycle \/ k = KDefaultCycle ->
+  (In k (validate rs) <->
+   In k (cycle_reports KNonNullCycle (nn_detect rs)) \/ In k (cycle_reports KDefaultCycle (dv_detect rs))).
+Proof.
+  intro Hk. assert (Hs : special k) by (unfold special; tauto).
+  destruct (validate_parts_nokind rs k Hs) as [H1 [H2 H3]].
+  unfold validate. rewrite !in_app_iff. unfold nokind in *. tauto.
+Qed.
+
+Theorem kind_nonnull_cycle rs :
+  In KNonNullCycle (validate rs) <-> exists n, reach (nn_succ rs) n n.
+Proof.
+  rewrite (validate_cycle_kind rs KNonNullCycle) by (left; reflexivity).
+  destruct (nn_detect_terminates rs) as [st Hst]. rewrite Hst. split.
+  - intros [H|H].
+    + cbn in H. destruct (d_reports st) as [|c l] eqn:E; [destruct H|].
+      unfold nn_detect in Hst.
+      eapply (dfs_all_sound_reach N N.eqb N.eqb_eq); [exact Hst | rewrite E; discriminate].
+    + apply cycle_reports_in in H. destruct H; discriminate.
+  - intros [n Hn]. left. cbn. destruct (d_reports st) as [|c l] eqn:E; [|left; reflexivity].
+    exfalso. exact (nn_detect_complete rs st Hst E n Hn).
+Qed.
+
+Theorem kind_default_cycle rs :
+  In KDefaultCycle (validate rs) <-> exists nd, reach (dv_succ rs) nd nd.
+Proof.
+  rewrite (validate_cycle_kind rs KDefaultCycle) by (right; reflexivity).
+  destruct (dv_detect_terminates rs) as [st Hst]. rewrite Hst. split.
+  - intros [H|H].
+    + apply cycle_reports_in in H. destruct H; discriminate.
+    + cbn in H. destruct (d_reports st) as [|c l] eqn:E; [destruct H|].
+      unfold dv_detect in Hst.
+      eapply (dfs_all_sound_reach fnode fnode_eqb fnode_eqb_spec); [exact Hst | rewrite E; discriminate].
+  - intros [n Hn]. right. cbn. destruct (d_reports st) as [|c l] eqn:E; [|left; reflexivity].
+    exfalso. exact (dv_detect_complete rs st Hst E n Hn).
+Qed.
+
+Theorem kind_required_deprecated rs :
+  In KRequiredDeprecated (validate rs) <->
+  exists iv, In iv (all_invals rs) /\ required iv = true /\ iv_dep iv = true.
+Proof.
+  rewrite (validate_pos rs KRequiredDeprecated) by (right; left; reflexivity). split.
+  - intros [[f [_ [H _]]]|[iv [H1 H2]]]; [discriminate|]. exists iv. split; [exact H1|].
+    unfold validate_inval, name_ok in H2. rewrite !in_app_iff, !in_chk in H2.
+    destruct H2 as [[_ H]|[[_ H]|[[H _]|H]]]; try discriminate.
+    + apply negb_false_iff, andb_true_iff in H. exact H.
+    + exfalso. exact (proj2 (proj2 (default_check_no_output rs _ _)) H).
+  - intros [iv [H1 [H2 H3]]]. right. exists iv. split; [exact H1|].
+    unfold validate_inval. rewrite !in_app_iff, !in_chk. right. right. left.
+    rewrite H2, H3. auto.
 Qed.
